@@ -313,6 +313,10 @@ func (c *compiler) compile() (WarriorData, error) {
 	if startVal < 0 || startVal > len(code) {
 		return WarriorData{}, fmt.Errorf("invalid start value: %d", startVal)
 	}
+	// the entry point must be one of the instructions (an empty program starts at 0)
+	if len(code) > 0 && startVal == len(code) {
+		return WarriorData{}, fmt.Errorf("invalid start value: %d", startVal)
+	}
 
 	c.metadata.Code = code
 	c.metadata.Start = startVal
